@@ -43,7 +43,7 @@ COMPONENTS = {
              "XtcePacketDefinition.from_xtce (header-only document)", "io.BufferedReader", "warnings machinery"],
     "stub": ["instrument producers (one per APID, 14-bit counters)", "multiplexer (event timing)",
              "space link (drop / dup / delay-reorder / flag-flip / count-jump / producer restart / link cut at a drawn byte)",
-             "SimSocket delivering one arrival per recv", "SimRaw disk", "25-line per-APID reassembly reference model"],
+             "SimSocket delivering one arrival per recv", "second downlink (own generator on the same definition, advanced between outputs of the first)", "SimRaw disk", "25-line per-APID reassembly reference model"],
 }
 ASSUMPTIONS = [
     "an UNSEGMENTED packet arriving while a group of the same APID is open is parsed alone and does not end that group "
@@ -63,7 +63,7 @@ ASSUMPTIONS = [
 EXPECTED_PROBES = ("wrap_in_group", "three_apids_open", "orphan_after_complete", "orphan_after_rejected", "sh_gt_segment",
                    "u_while_open", "superseded_first", "group_emitted", "group_gap_rejected", "drop", "dup", "reorder",
                    "flag_flip", "count_jump", "producer_restart", "link_cut", "header_bits_vary", "wide_open_groups", "warnings_judged",
-                   "group_len_ge_17", "combined_gt_65542")
+                   "group_len_ge_17", "combined_gt_65542", "second_downlink")
 COV_UNIVERSE = 32
 
 U, F, C, L = factory.FLAG_UNSEG, factory.FLAG_FIRST, factory.FLAG_CONT, factory.FLAG_LAST
@@ -118,6 +118,10 @@ def transitions(state, i, flag, consecutive):
     if consecutive(g):
         return [(None, g, False)]
     return [(None, None, True)]                                  # LAST closing a gapped group
+
+
+def header_apid(pkt):
+    return int.from_bytes(pkt[0:2], "big") & 0x7FF
 
 
 def expected_raw(arrivals, idxs, sh):
@@ -396,6 +400,25 @@ def run(ch, render=False):
         sock = SimSocket(w, pipe, take=take)
         source = sock
 
+    # ---- a second downlink decoded at the same time with the same definition -------------------
+    # (its own generator over its own small history on one of this run's APIDs; advanced between outputs of the main
+    # generator. Each generator owns its open groups: neither may lose, gain or complete a group because of the other)
+    shadow = None
+    if mode in ("direct", "link") and arrivals and ch.chance(1, 5, "second_downlink"):
+        sa = arrivals[ch.draw(len(arrivals), "shadow_apid_of")][0]
+        sb = (sa + 1) % 2048
+        c0 = ch.pick((16381, 0, 100), "shadow_start")
+        sver, sshf = 0, (1 if sh else 0)
+
+        def sp(apid, flag, cnt, tag):
+            return factory.build_packet(sver, 0, sshf, apid, flag, cnt % 16384, bytes([0xA5, tag, 0xC3]))
+        spk = [sp(sa, U, c0, 0), sp(sa, F, c0 + 1, 1), sp(sa, C, c0 + 2, 2), sp(sb, U, 7, 3), sp(sa, L, c0 + 3, 4), sp(sa, U, c0 + 4, 5)]
+        shadow = {"stream": b"".join((b"\xEE" * k) + p_ for p_ in spk), "gen": None, "out": [], "err": None, "done": False,
+                  "expected": [spk[0], spk[3], spk[1] + spk[2][6 + sh:] + spk[4][6 + sh:], spk[5]]}
+        w.probe("second_downlink")
+    current = ["main"]
+    shadow_pulled = [0]
+
     # ---- run the consumer ---------------------------------------------------------------------
     observed = []             # (arrival_index_or_None, raw bytes)
     warned_at = set()
@@ -412,9 +435,10 @@ def run(ch, render=False):
         """Transparent proxy around whatever the framer returns (generator, iterator object ...): counts the packets
         handed out and forwards everything else (attributes, close, send ...) to the original object."""
 
-        def __init__(self, inner):
+        def __init__(self, inner, ctr):
             self.__dict__["_inner"] = inner
             self.__dict__["_it"] = None
+            self.__dict__["_ctr"] = ctr
 
         def __iter__(self):
             return self
@@ -423,7 +447,7 @@ def run(ch, render=False):
             if self._it is None:
                 self.__dict__["_it"] = iter(self._inner)
             v = next(self._it)
-            pulled[0] += 1
+            self.__dict__["_ctr"][0] += 1
             return v
 
         def __getattr__(self, name):
@@ -438,13 +462,15 @@ def run(ch, render=False):
                 c()
 
     def counting(*a, **kw):
-        return _Counting(orig_gen(*a, **kw))
+        return _Counting(orig_gen(*a, **kw), pulled if current[0] == "main" else shadow_pulled)
     pk.ccsds_generator = counting
     # "dropped with a warning": a warnings.warn() is what the code does today; a WARNING-level record on one of the
     # decoder's loggers (space_packet_parser.xtce.*) is accepted as well, so that moving from warnings to logging
     # would not be reported. The framer's own logger (trailing-bytes messages after a link cut) does not count.
     class _Cap(logging.Handler):
         def emit(self, record):
+            if current[0] != "main":
+                return
             if record.levelno >= logging.WARNING and record.name.startswith("space_packet_parser") and not (
                     torn_tail and record.name == "space_packet_parser.packets"):
                 n_warn[0] += 1
@@ -461,9 +487,31 @@ def run(ch, render=False):
             warnings.simplefilter("always")
 
             def showwarning(message, category, filename, lineno, file=None, line=None):
+                if current[0] != "main":
+                    return
                 n_warn[0] += 1
                 warned_at.add(pulled[0] - 1)
             warnings.showwarning = showwarning
+
+            def step_shadow():
+                """Advance the second generator by one output (or to its end)."""
+                current[0] = "shadow"
+                try:
+                    if shadow["gen"] is None:
+                        shadow["gen"] = _defn.packet_generator(shadow["stream"], combine_segmented_packets=True,
+                                                               secondary_header_bytes=sh, skip_header_bytes=k)
+                    it = next(shadow["gen"])
+                    rd_ = getattr(it, "raw_data", None)
+                    shadow["out"].append(bytes(rd_) if rd_ is not None else None)
+                    w.ev("consumer2", "output", len(shadow["out"]))
+                except StopIteration:
+                    shadow["done"] = True
+                except Exception as e_:      # noqa: BLE001
+                    library_exception(e_)
+                    shadow["err"] = f"{type(e_).__name__}: {e_}"
+                    shadow["done"] = True
+                finally:
+                    current[0] = "main"
             gen = None
             w.ev("consumer", "start", srckind, sh, k)
             try:
@@ -473,6 +521,8 @@ def run(ch, render=False):
                     if len(observed) > n_arr + 2:
                         err = ("too_many_items", f"more than {n_arr + 2} outputs from {n_arr} arrivals")
                         break
+                    if shadow is not None and not shadow["done"] and len(shadow["out"]) < 8 and ch.chance(1, 3, "shadow_step"):
+                        step_shadow()
                     item = next(gen)
                     if pipe is not None:
                         pipe.eof_reads = 0
@@ -491,6 +541,14 @@ def run(ch, render=False):
                 try:
                     if gen is not None:
                         gen.close()
+                except Exception:
+                    pass
+            if shadow is not None:
+                while not shadow["done"] and len(shadow["out"]) < 8:
+                    step_shadow()
+                try:
+                    if shadow["gen"] is not None:
+                        shadow["gen"].close()
                 except Exception:
                     pass
     finally:
@@ -608,6 +666,16 @@ def run(ch, render=False):
                 fail = accept(True)
         if fail is not None:
             out.fail(fail[0], f"{fail[1]} ({desc})")
+
+    if shadow is not None and out.violation is None:
+        if shadow["err"] is not None:
+            out.fail("exception", f"{shadow['err']} in a second generator using the same definition at the same time, "
+                                  f"after {len(shadow['out'])} of its outputs ({desc})")
+        elif shadow["out"] != shadow["expected"]:
+            out.fail("second_generator_wrong_output",
+                     f"a second generator using the same definition at the same time (history U F C U' L U on apid "
+                     f"{header_apid(shadow['expected'][0])}) yielded {[len(o) if o is not None else None for o in shadow['out']]} bytes "
+                     f"per output, expected {[len(o) for o in shadow['expected']]} with the group reassembled third ({desc})")
 
     out.log = w.log
     out.faults = w.faults
